@@ -56,10 +56,12 @@ class AsyncEventProcessor(EventProcessor):
     """
 
     async def on_event_async(self, event: Event) -> None:
-        """Async version of on_event. Override in subclasses."""
+        """Async version of on_event. Falls back to ``on_event`` unless overridden."""
+        self.on_event(event)
 
     async def shutdown_async(self) -> None:
-        """Async version of shutdown. Override to flush buffers."""
+        """Async version of shutdown. Falls back to ``shutdown`` unless overridden."""
+        self.shutdown()
 
 
 class TypedEventProcessor(EventProcessor):
